@@ -42,7 +42,7 @@ CHECKS["C05"] = dict(
     category="fault_enumeration",
     text="Seeded search (40k quick / 1M thorough) over operation sequences with 1..n clean close/reopen cycles, all four durability modes, log-size limits from 64 B (rotation after every record) to the default, BufWriter capacities from 1 B; the dump of the reopened database must equal the reference model after all operations and new identifiers must not collide with live ones.",
     design_ref="DESIGN.md §3 C05",
-    note="No faults in this check (C06 injects them). AsyncWalManager and the AdaptiveFlusher thread are not run (not reachable from GrafeoDB); the flusher is modelled as generated wal.sync() calls.",
+    note="One run in 30 writes string values of 5 kB / 70 kB / 1.1 MB (log records far beyond any buffer or size limit). No faults in this check (C06 injects them). AsyncWalManager and the AdaptiveFlusher thread are not run (not reachable from GrafeoDB); the flusher is modelled as generated wal.sync() calls.",
 )
 CHECKS["C06"] = dict(
     engine="DISK",
@@ -57,7 +57,7 @@ CHECKS["C20"] = dict(
     engine="SCHED",
     technique="deterministic simulation of thread schedules: 2-3 simulated threads under shuttle (random + PCT schedulers, recorded schedules) with every parking_lot acquire/release and every hooked atomic a scheduling point; outcome compared with all sequential interleavings of the same operations run on the real code, plus deadlock/no-progress/panic detection and memory-accounting invariants",
     category="exploration",
-    text="Seeded search over scenarios (LpgStore core ops, LpgStore full op mix, RdfStore same-triple insert/remove, TransactionManager begin/write/commit/gc, BufferManager grants against a budget that fits k-1 of k requests, Catalog name dictionaries and index definitions, QueryCache at capacity 2, WalManager log/sync/rotate on one directory with rotation every 1-3 records), each explored under 40 (quick) / 120 (thorough) schedules. Returns and final state (primary data and every derived structure as seen through its accessors) must equal those of some sequential order; ids unique; commit epochs unique and increasing; allocated() <= hard limit sampled after every operation and 0 after all grants are dropped; shuttle's deadlock detector and a 60k-step bound give no-deadlock / bounded progress.",
+    text="Seeded search over scenarios (LpgStore core ops, LpgStore full op mix, RdfStore same-triple insert/remove, TransactionManager begin/write/commit/gc, BufferManager grants against a budget that fits k-1 of k requests, Catalog name dictionaries and index definitions, QueryCache at capacity 2, WalManager log/sync/rotate on one directory with rotation every 1-3 records, and one GrafeoDB with one Session per thread issuing direct-API calls, auto-commit statements and whole begin/INSERT/commit|rollback transactions), each explored under 40 (quick) / 120 (thorough) schedules (a quarter of that for the database family). Returns and final state (primary data and every derived structure as seen through its accessors) must equal those of some sequential order; ids unique; commit epochs unique and increasing; allocated() <= hard limit sampled after every operation and 0 after all grants are dropped; shuttle's deadlock detector and a 60k-step bound give no-deadlock / bounded progress.",
     design_ref="DESIGN.md §3 C20",
     note="Interleavings at lock-operation and hooked-atomic granularity; lock-free internals of dashmap/crossbeam are not explored at their own granularity. The LpgStore full-mix family has open known findings (component structures updated under separate locks) that mask further deviations in the same outcome component; the lpg-core, rdf, txm and buffer families have none.",
 )
@@ -66,9 +66,9 @@ CHECKS["C01"] = dict(
     engine="HIST",
     technique="deterministic simulation of multi-session histories: the simulator owns all sessions of one GrafeoDB and draws the total order of begin/mutation/read/commit/rollback from the run seed; every read is compared with an executable snapshot-isolation reference model; deviations are classified against an unmodified twin of the pinned tree run in lock-step on the same history",
     category="exploration",
-    text="Seeded search (20k quick / 1M thorough histories, 2-4 sessions, 6-60 steps) with every kind of read placed inside other sessions' open transactions, right after every commit/rollback by every session, and repeated inside transactions. The reference model (RefMvcc) pins a snapshot at begin, overlays the transaction's own writes, and publishes at commit. A read that differs from the model is a violation unless it is byte-for-byte the answer of the pinned tree on the same history AND its (access path, reader context) is listed in known_findings.jsonl.",
+    text="Seeded search (20k quick / 1M thorough histories, 2-4 sessions, 6-60 steps) with every kind of read (35 access paths: GQL label/unlabelled scan, expand, two-hop chain and aggregates over it, count, sum, filter; the same label scan through Cypher, Gremlin, GraphQL and execute_with_params; SPARQL patterns; every point accessor of Session incl. incoming/typed neighbours, degrees, batch lookup; GrafeoDB direct counts/iteration/lookup) placed inside other sessions' open transactions, right after every commit/rollback by every session, and repeated inside transactions. The reference model (RefMvcc) pins a snapshot at begin, overlays the transaction's own writes, and publishes at commit. A read that differs from the model is a violation unless it is byte-for-byte the answer of the pinned tree on the same history AND its (access path, reader context) is listed in known_findings.jsonl.",
     design_ref="DESIGN.md §3 C01, §2.5a",
-    note="The pinned tree violates C01 on almost every access path (see known findings: no real isolation); what this check still decides is that the working tree never deviates from the specification in any way the pinned tree did not. Interleaving granularity = whole session calls; overlapping writers of one entity are excluded (C03). Trusted: RefMvcc (~150 lines) and the id->slot normalisation.",
+    note="The pinned tree violates C01 on almost every access path (see known findings: no real isolation); what this check still decides is that the working tree never deviates from the specification in any way the pinned tree did not. Interleaving granularity = whole session calls; overlapping writers of one entity are excluded (C03). The two-hop paths cannot be classified by the pinned twin (its factorized chain differs by repair 034eb0a): there a deviation is listed only when the answer is exactly the join of the same session's single-hop answer at the same instant. GQL `DELETE r` on an edge variable is not generated (both translators emit DeleteNode for it, DESIGN B3). Trusted: RefMvcc (~150 lines) and the id->slot normalisation.",
 )
 CHECKS["C02"] = dict(
     engine="HIST",
@@ -106,11 +106,11 @@ CHECKS["C07"] = dict(
 )
 
 CHECKS["C18"] = dict(
-    engine="VEC",
-    technique="deterministic simulation: seeded histories of insert/re-insert/remove/search/batch-search over the real HnswIndex (seeded level draw, fixed-hasher containers) with per-run dimension, metric, m/ef and magnitude; every result list judged against an id->vector model and scalar distance definitions",
+    engine="VEC+VECMT",
+    technique="deterministic simulation: (thread layer, 1 run in 20) 2-3 simulated threads inserting into, removing from and searching one HnswIndex under shuttle (random + PCT, recorded schedules, every lock operation inside hnsw.rs a scheduling point), each search judged against the presence windows of the ids (invoke/return stamps), state after join against inserted-minus-removed, deadlock/panic/no-progress detection; (history layer) seeded histories of insert/re-insert/remove/search/batch-search over the real HnswIndex (seeded level draw, fixed-hasher containers) with per-run dimension, metric, m/ef and magnitude; every result list judged against an id->vector model and scalar distance definitions",
     category="exploration",
-    text="Decides the index-history half of the property: after any generated history a search returns at most k distinct ids that are all currently present, each with its true distance (f64 definition, tolerance scaled to the accumulated magnitude), in non-decreasing order; batch search equals one-by-one search; a non-empty index never answers a k>=1 search with nothing.",
-    design_ref="DESIGN.md §3 C18",
+    text="Decides the index-history half of the property: after any generated history a search returns at most k distinct ids that are all currently present, each with its true distance (f64 definition, tolerance scaled to the accumulated magnitude), in non-decreasing order; batch search equals one-by-one search; a non-empty index never answers a k>=1 search with nothing. Thread layer: a search running while other threads insert and remove returns only ids whose presence window can overlap the call (never one whose removal had returned before the search began), with true distances, sorted, distinct, at most k; after the threads finish len/contains/get/iter describe exactly inserted-minus-removed.",
+    design_ref="DESIGN.md §3 C18, Part II B1.25",
     note="NOT decided: 'k results whenever k are reachable' (recorded as a probe only), exact-search optimality, SIMD-vs-scalar agreement and quantiser error bounds (pure functions of their inputs).",
 )
 
@@ -163,6 +163,7 @@ manifest = {
         {"name": "CODEC", "path": "sim/src/eng_codec.rs", "serves_properties": ["C15"], "kind_free_text": "history simulator over PropertyStorage and ChunkedAdjacency with map models"},
         {"name": "SNAP", "path": "sim/src/eng_snap.rs", "serves_properties": ["C07"], "kind_free_text": "copy routes over history-built graphs; byte faults on the snapshot blob"},
         {"name": "VEC", "path": "sim/src/eng_vec.rs", "serves_properties": ["C18"], "kind_free_text": "history simulator over HnswIndex with an id->vector model"},
+        {"name": "VECMT", "path": "sim/src/eng_vecmt.rs", "serves_properties": ["C18"], "kind_free_text": "shuttle-scheduled threads inserting, removing and searching one HnswIndex; presence-window oracle"},
         {"name": "TWIN", "path": "sim/src/eng_twin.rs", "serves_properties": ["C10"], "kind_free_text": "three databases in lock-step (indexes+cache+factorized / no cache / flat)"},
         {"name": "PAR", "path": "sim/src/eng_par.rs", "serves_properties": ["C17"], "kind_free_text": "ParallelPipeline workers as shuttle threads via the scoped-thread seam"},
         {"name": "SPILL", "path": "sim/src/eng_spill.rs", "serves_properties": ["C17"], "kind_free_text": "spilling sort / aggregate with the spill files behind the file seam: memory budgets, buffer sizes, injected I/O errors, disk full and EINTR"},
